@@ -92,6 +92,17 @@ def run_case(ctx, mr, case):
         ctx.diff('oracle', 'readonly-error', case, 'IVFCReadOnlyError', pyenv.errname(ex), 'wrong error for a write on a read-only container')
     if bio.getvalue() != img:
         ctx.diff('oracle', 'readonly-changed', case, 'unchanged', 'changed', 'a refused write changed the file')
+    # ... a write that would store nothing is a write all the same (an ordinary file opened read-only refuses write(b'') too)
+    for how, prep, arg in (('an empty write', lambda: r.seek(at), b''), ('a write at the end of the view', lambda: r.seek(0, 2), b'abc')):
+        try:
+            prep()
+            r.write(arg)
+            ctx.diff('oracle', 'readonly-write-accepted', dict(case, write=how), 'IVFCReadOnlyError', 'accepted', f'{how} on a read-only container was accepted')
+        except IVFCReadOnlyError:
+            pass
+        except Exception as ex:
+            ctx.diff('oracle', 'readonly-error', dict(case, write=how), 'IVFCReadOnlyError', pyenv.errname(ex), f'wrong error for {how} on a read-only container')
+    r.seek(at)
     # ... "changes nothing" includes the view itself: it still stands where it stood, and reads on from there
     pos, nxt = r.tell(), r.read(24)
     if pos != at or nxt != payloads[0][at:at + 24]:
